@@ -7,6 +7,8 @@ import (
 	"fmt"
 	"io"
 	"os"
+	"runtime"
+	"runtime/debug"
 	"sort"
 	"strings"
 
@@ -127,6 +129,10 @@ func families() []family {
 			f("templates/m2.yaml", `{{- $_ := set .Values "shared" "set-by-m2" -}}`+"\n"+cm("m2", "  wrote: \"yes\"\n")),
 			f("templates/m3.yaml", cm("m3", "  after: {{ .Values.shared | quote }}\n")))
 	}
+	tplFails := func(c *chart.Chart) {
+		// a tpl call that has produced output before it fails: nothing of it may survive into a later render
+		c.Templates = append(c.Templates, f("templates/tf.yaml", cm("tf", `  o: {{ tpl "partial-output-{{ fail \"inner failure\" }}" . | quote }}`+"\n")))
+	}
 	caps := func(c *chart.Chart) {
 		c.Templates = append(c.Templates, f("templates/caps.yaml", cm("caps", "  hasA: {{ .Capabilities.APIVersions.Has \"verif.a/v1\" | quote }}\n  hasB: {{ .Capabilities.APIVersions.Has \"verif.b/v1\" | quote }}\n  kube: {{ .Capabilities.KubeVersion.Version | quote }}\n  rel: {{ .Release.Name | quote }}\n")))
 	}
@@ -139,7 +145,7 @@ func families() []family {
 			return c
 		}
 	}
-	single := map[string]func(*chart.Chart){"two-failing": twoFailing, "cross-file-values": crossFile, "capabilities": caps, "multi-kind": multiKind, "dup-define": dupDefine, "notes": notes, "tpl-include": tplInclude, "files": files,
+	single := map[string]func(*chart.Chart){"tpl-fails-midway": tplFails, "two-failing": twoFailing, "cross-file-values": crossFile, "capabilities": caps, "multi-kind": multiKind, "dup-define": dupDefine, "notes": notes, "tpl-include": tplInclude, "files": files,
 		"sub-defines": subDefines, "globals": globals, "import-values": importValues}
 	var names []string
 	for n := range single {
@@ -315,6 +321,7 @@ func fieldOf(o outputs, name string) string {
 }
 
 type detReplay struct {
+	After     *variant    `json:"after,omitempty"` // history independence: Variant rendered after this one
 	CapsReuse []string    `json:"caps_reuse,omitempty"`
 	Variant   variant     `json:"variant"`
 	Base      variant     `json:"base"`
@@ -365,6 +372,12 @@ func replayDeterminism(c *core.Ctx, data json.RawMessage) []core.Violation {
 		first, third := capsReuse(fams, rd.Variant.Family, rd.CapsReuse[0], rd.CapsReuse[1])
 		if first != third {
 			return core.FilterKey([]core.Violation{{Property: prop, Key: rd.Key, What: firstDiff(first, third), Replay: data}}, rd.Key)
+		}
+		return nil
+	}
+	if rd.After != nil {
+		if v := afterProbe(fams, *rd.After, rd.Variant, nil); v != nil {
+			return core.FilterKey([]core.Violation{*v}, rd.Key)
 		}
 		return nil
 	}
@@ -452,8 +465,73 @@ func capsReuse(fams []family, famIdx int, extraA, extraB string) (string, string
 	return first, third
 }
 
+// afterProbe renders y, then x, then y again in one process on one P (so that
+// process-wide caches and pools behave deterministically) and requires the
+// two outputs of y to be equal: a render must not depend on what was rendered
+// before it. base, when given, is y's output from before any probe.
+func afterProbe(fams []family, x, y variant, base *outputs) *core.Violation {
+	old := runtime.GOMAXPROCS(1)
+	gc := debug.SetGCPercent(-1)
+	defer func() { debug.SetGCPercent(gc); runtime.GOMAXPROCS(old) }()
+	var o0 outputs
+	if base != nil {
+		o0 = *base
+	} else {
+		o0, _ = execute(fams, y, nil)
+	}
+	execute(fams, x, nil)
+	o, _ := execute(fams, y, nil)
+	d := diffField(o0, o)
+	if d == "" {
+		return nil
+	}
+	key := core.SanitizeKey(fmt.Sprintf("determinism|previous-render|output=%s|feature=%s", d, fams[y.Family].Name))
+	b, _ := json.Marshal(wrap("determinism", detReplay{After: &x, Variant: y, Base: y, Key: key}))
+	return &core.Violation{Property: prop, Key: key,
+		What:   fmt.Sprintf("%s of chart family %q (values set %d) differs when family %q (values set %d) was rendered before it in the same process: %s", d, fams[y.Family].Name, y.Values, fams[x.Family].Name, x.Values, firstDiff(fieldOf(o0, d), fieldOf(o, d))),
+		Replay: b}
+}
+
 func runDeterminism(c *core.Ctx) {
 	fams := families()
+	// history independence: every ordered pair of (family, values set)
+	{
+		var vs []variant
+		for fi := range fams {
+			for vi := range valueSets {
+				vs = append(vs, variant{Family: fi, Values: vi})
+			}
+		}
+		var bases []outputs
+		pairs := 0
+		for xi, x := range vs {
+			if !c.NextMine() {
+				continue
+			}
+			if bases == nil {
+				for _, y := range vs {
+					o, _ := execute(fams, y, nil)
+					bases = append(bases, o)
+				}
+			}
+			for yi, y := range vs {
+				v := afterProbe(fams, x, y, &bases[yi])
+				c.Eval(2)
+				pairs++
+				c.Distinct(fmt.Sprintf("after|%d|%d", xi, yi))
+				if v != nil {
+					c.Violate(prop, v.Key, v.What, json.RawMessage(v.Replay))
+					c.Outcome("after-probe:output-differs")
+				} else {
+					c.Outcome("after-probe:same-output")
+				}
+			}
+		}
+		c.Count("history_independence_ordered_pairs", int64(pairs))
+		if pairs > 0 {
+			c.Floor("history-independence")
+		}
+	}
 	for fi := range fams {
 		if fams[fi].Name != "capabilities" || !c.Mine(int64(fi)) {
 			continue
